@@ -126,10 +126,12 @@ class Path:
         """evaluate a universal clause now (state is mutable!) into a template over bound placeholders"""
         ks = [fresh('bv', z3.IntSort()) for _ in range(f.nvars)]
         self.spec_mode += 1
+        saved_idx = dict(self.idx)
         try:
             body = f.body(*[SV(k) for k in ks])
         finally:
             self.spec_mode -= 1
+            self.idx = saved_idx           # index terms over the bound placeholder are not ground terms
         if isinstance(body, Forall):
             raise Unsupported('nested Forall assumption')
         if f.nvars == 1:
